@@ -158,17 +158,11 @@ def parseVec (line : String) : Option Vec := do
         let addrs := (bp.splitOn ",").filterMap parseHex
         some (some (fun a => addrs.contains a.toNat))
     let bps ← bps
-    let st : St := {
-      AF := reg af, BC := reg bc, DE := reg de, HL := reg hl,
-      Alternate := { AF := reg af', BC := reg bc', DE := reg de', HL := reg hl' },
-      IR := reg ir, IX := BitVec.ofNat 16 ix, IY := BitVec.ofNat 16 iy,
-      SP := BitVec.ofNat 16 sp, PC := BitVec.ofNat 16 pc,
-      IFF1 := bit flags 0, IFF2 := bit flags 1, IM := im,
-      Memory := .user, IO := bit caps 0, RETNHandler := bit caps 1, RETIHandler := bit caps 2,
-      Interrupt := intr, BreakPoints := bps, HALT := bit flags 2,
-      mem := applyOverrides (memDefault ms) ovs,
-      dev := devFn ds,
-      log := [] }
+    -- `default` supplies any field this driver does not know about (a field ADDED to the Go struct must not stop
+    -- the correspondence from running: it is the correspondence that has to find the input on which it matters)
+    let c0 : CPU := default
+    let c : CPU := { c0 with AF := reg af, BC := reg bc, DE := reg de, HL := reg hl, Alternate := { AF := reg af', BC := reg bc', DE := reg de', HL := reg hl' }, IR := reg ir, IX := BitVec.ofNat 16 ix, IY := BitVec.ofNat 16 iy, SP := BitVec.ofNat 16 sp, PC := BitVec.ofNat 16 pc, IFF1 := bit flags 0, IFF2 := bit flags 1, IM := im, Memory := .user, IO := bit caps 0, RETNHandler := bit caps 1, RETIHandler := bit caps 2, Interrupt := intr, BreakPoints := bps, HALT := bit flags 2 }
+    let st : St := { c with mem := applyOverrides (memDefault ms) ovs, dev := devFn ds, log := [] }
     pure { id := id, st := st, steps := n, inj := inj, kind := kind }
   | _ => none
 
